@@ -54,7 +54,7 @@ NativeProg(x) == L(<< At(63), P(At(1), x) >>)          \* (sha256tree (q . X))
 (* lengths (the content of an atom cannot influence a cost; it is n bytes  *)
 (* of value n mod 256)                                                     *)
 Lens == {0, 1, 2, 5, 32}
-MaxNodes == 7
+MaxNodes == IF "MAXNODES" \in DOMAIN IOEnv THEN atoi(IOEnv.MAXNODES) ELSE 7
 AtomOfLen(n) == A([i \in 1..n |-> n % 256])
 
 RECURSIVE TreesOf(_)
@@ -62,11 +62,14 @@ TreesOf(n) ==
   IF n = 1 THEN {AtomOfLen(k) : k \in Lens}
   ELSE UNION { {P(x, y) : x \in TreesOf(k), y \in TreesOf(n - 1 - k)} : k \in {j \in 1..(n - 2) : j % 2 = 1} }
 
-\* the quick tier leaves out the 32-byte atoms at the largest size (the 7-node level then has 4^4 * 5 trees)
+\* the quick tier takes the largest size only over the atom lengths {0, 1, 32}  (3^4 * 5 trees instead of 5^4 * 5)
+QuickLens == {0, 1, 32}
+RECURSIVE LensWithin(_, _)
+LensWithin(x, S) == IF IsAtom(x) THEN Len(x.a) \in S ELSE LensWithin(x.f, S) /\ LensWithin(x.r, S)
 Universe ==
   UNION {TreesOf(n) : n \in {j \in 1..(MaxNodes - 2) : j % 2 = 1}}
     \cup (IF Tier = "thorough" THEN TreesOf(MaxNodes)
-          ELSE {x \in TreesOf(MaxNodes) : TRUE})
+          ELSE {x \in TreesOf(MaxNodes) : LensWithin(x, QuickLens)})
 
 FlagsOf(nw) == IF nw THEN {"ENABLE_SHA256_TREE", "NEW_COST_MODEL"} ELSE {"ENABLE_SHA256_TREE"}
 
@@ -89,9 +92,9 @@ Next ==
 (* the constants (TLC integers; every cost here is far below 2^31) *)
 
 \* ChiaLisp program
-CLAtomA(nw) == IF nw THEN 2965 ELSE 1458         \* cost on the empty atom
+CLAtomA(nw) == IF nw THEN 3085 ELSE 1638         \* cost on the empty atom
 CLAtomB(nw) == IF nw THEN 6 ELSE 2               \* per byte of an atom
-CLPairK(nw) == IF nw THEN 3073 ELSE 1738         \* cost(pair) - cost(left) - cost(right)
+CLPairK(nw) == IF nw THEN 3141 ELSE 1412         \* cost(pair) - cost(left) - cost(right)
 
 \* native operator, program (sha256tree (q . X)) : NatW is the cost of the operator
 \* dispatch and of the quote around the argument
